@@ -283,6 +283,25 @@ Definition sheet_cssText_rejected (h : heap) (p : id) (n : nat) : heap :=
       let h2 := Nat.iter n (parse_one_rule p) (sheet_clear_rules h p) in
       if sheet_cssText_restore_via_setter then sheet_set_cssRules h2 p old else raw_set_rules h2 p old
   end.
+(* ---- a REFUSED @namespace insertion (cssstylesheet.py insertRule, @namespace branch): the rule is put into the
+   list raw, _cleanNamespaces deletes some rules with deleteRule (dels: their indices) until one deleteRule raises
+   NoModificationAllowedErr, then the handler restores the saved list: del self._cssRules[:]; for r in saved:
+   <regenerated writes: r._parentStyleSheet = self>; raw re-insert; raise -- the post settings are not reached *)
+Definition raw_insert (h : heap) (p c : id) (idx : nat) : heap :=
+  upd h p (fun o => set_kids (ins RTop c idx (kids o)) o).
+Definition restore_one (p : id) (h : heap) (r : id) : heap :=
+  upd (upd h r (apply_writes sheet_insert_ns_restore p)) p (fun o => set_kids (kids o ++ [(RTop, r)]) o).
+Definition sheet_insert_ns_refused (h : heap) (p c : id) (idx : nat) (dels : list nat) : heap :=
+  match get h p with
+  | None => h
+  | Some op =>
+      let old := role_kids RTop (kids op) in
+      let h1 := raw_insert h p c idx in
+      let h2 := fold_left (fun h i => detach DSheetDelete h p i) dels h1 in
+      let h3 := upd h2 p (fun o => set_kids (without_role RTop (kids o)) o) in
+      fold_left (restore_one p) old h3
+  end.
+
 (* Property.__init__: the property and its PropertyValue (property.py l.74-79) *)
 Definition property_ctor (h : heap) (par : option id) : heap :=
   let p := length h in
